@@ -87,7 +87,7 @@ pub fn check(c: &Case) -> Verdict {
     }
     let nontrivial = range.len() >= 3 && ntypes >= 2 && (decreasing || big_sum);
     let sample = serde_json::json!({"coin": built.coin.cli(), "range": format!("{}..={}", s, e), "timestamps": range.iter().take(8).map(|(_, b)| b.time).collect::<Vec<_>>(), "sum_of_gaps": st.sum_gaps.to_string(), "txs": st.txs, "outputs": st.outputs, "types": st.types.iter().map(|(t, s)| format!("{}:{}+{}", t.report_name(), s.must, s.may)).collect::<Vec<_>>()});
-    Verdict::Pass(Pass { nontrivial, key: key_of(c), classes, known: vec![], sub_evals: sub, sample: Some(sample) })
+    Verdict::Pass(Pass { nontrivial, key: key_of(c), classes, known: vec![], sub_evals: sub, sample: Some(sample), extra_keys: vec![] })
 }
 
 fn run(eng: &Engine, a: &Args) {
